@@ -9,10 +9,13 @@ SEPS = {
     "CCML": " /* first line\n   second line END */\n", "MIX": "\t \r\n \t",
     # comments with no white space around them (the comment alone separates the tokens)
     "CCT": "/* tight */", "CCMLT": "/*\n*/", "HASHT": "# tight\n",
+    # runs of asterisks in front of the closing */ (even and odd), the shortest comments
+    "CCSTAR": " /** doc **/ ", "CCSTARS": "/***/", "CCEMPTY": " /**/ /**** boxed ****/ ",
 }
 KEYWORD_ROLES = {"opener", "end", "key", "kvopen", "kvend", "projopen", "projend", "ptsopen", "ptsend"}
 BARE_OK_ROLES = {"val", "kvkey", "kvval", "cfgkey", "cfgval"}
 BARE_RE = re.compile(r"^[A-Za-z_\xc0-\xff][A-Za-z0-9_\xc0-\xff\-:]*$")
+LOGICAL_RE = re.compile(r"(?<![\w\[\]'\"`])(AND|OR|NOT)(?![\w\[\]'\"`])")
 _words = None
 
 
@@ -50,6 +53,10 @@ def variant(conc, tok, kind):
         v = tok.extra if isinstance(tok.extra, dict) else None
         if v is not None and v.get("sh") == "bool":
             return concretise.case(tok.text, kind)
+        if v is not None and v.get("sh") == "expr":
+            # the logical operator keywords of an expression (the lexeme is stored in normal form with AND / OR / NOT in
+            # upper case whatever their spelling; comparison words such as eq / in keep their spelling and are left alone)
+            return LOGICAL_RE.sub(lambda m: concretise.case(m.group(0), kind), tok.text)
         return None
     v = tok.extra if isinstance(tok.extra, dict) else None
     if v is None or v.get("sh") not in ("str", "char", "strpat", "kvkey", "cfgkey"):
